@@ -11,6 +11,9 @@
 //     stored time and stored columns against the logical event (oracle) and the model; the two ES
 //     protocols against each other; stream L: number literals in every spelling (64-bit integers,
 //     long decimals, large / small exponents) through every protocol that can express them;
+//     stream K (keys.go): events that are trees whose member names collide with names the ingest path treats
+//     specially (the timestamp key, ES metadata names, HEC / Loki / OTLP envelope names), below the root and at
+//     the root, through every log protocol; stream R: names of the record's own root fields (known findings);
 //  3. metrics end to end: logical datapoints through OpenTSDB put, Prometheus remote write
 //     and OTLP metrics; rotate; PromQL query path; stored series / time / value against the
 //     logical point (oracle) and the model.
@@ -466,6 +469,10 @@ type levent struct {
 	Res    []kv    `json:"res"` // resource attributes / HEC host,source / labels
 	Trace  []byte  `json:"trace,omitempty"`
 	Span   []byte  `json:"span,omitempty"`
+	// stream K: nested members of the event (objects, arrays) next to the flat attributes; the flat members of the
+	// HEC envelope's own "fields" object
+	Tree   jobj `json:"tree,omitempty"`
+	Fields []kv `json:"hec_fields,omitempty"`
 }
 
 // every key has one value kind: a column that holds strings and numbers in one block is
@@ -679,6 +686,10 @@ type expect struct {
 	timeKnown string        // class to use when a carried time is replaced by the arrival time
 	altTime   uint64        // a specific wrong time with its own class (seconds whose fraction was cut)
 	altClass  string
+	lostClass   func(k string) string // a more specific class for a missing column (stream K)
+	nestedTimes map[uint64]string     // instants that nested fields named like the timestamp key denote -> their column
+	nestedClass string                // class for a stored time found in nestedTimes (default <proto>_time_taken_from_nested_field)
+	alteredClass func(k string, got sv) string // a more specific class for an altered column (stream R)
 }
 
 func checkStored(sum *vhlib.Summary, proto string, cid string, ex expect, o logObs, extraOK func(k string) string, c interface{}) {
@@ -702,8 +713,18 @@ func checkStored(sum *vhlib.Summary, proto string, cid string, ex expect, o logO
 			} else if ex.altClass != "" && o.st.ts == ex.altTime {
 				cl = ex.altClass
 			}
-			fail(sum, cl, fmt.Sprintf("%s: event %s carried time %d ms, stored timestamp %d (arrival window %d..%d)", proto, cid, ex.carried, o.st.ts, o.win.lo, o.win.hi), c)
+			if col, ok := ex.nestedTimes[o.st.ts]; ok {
+				cl = proto + "_time_taken_from_nested_field"
+				if ex.nestedClass != "" {
+					cl = ex.nestedClass
+				}
+				fail(sum, cl, fmt.Sprintf("%s: event %s carried time %d ms of its own, stored timestamp %d is the value of its field %q", proto, cid, ex.carried, o.st.ts, col), c)
+			} else {
+				fail(sum, cl, fmt.Sprintf("%s: event %s carried time %d ms, stored timestamp %d (arrival window %d..%d)", proto, cid, ex.carried, o.st.ts, o.win.lo, o.win.hi), c)
+			}
 		}
+	} else if col, ok := ex.nestedTimes[o.st.ts]; ok && !inWin {
+		fail(sum, proto+"_time_taken_from_nested_field", fmt.Sprintf("%s: event %s carries no time at its root, stored timestamp %d is the value of its nested field %q", proto, cid, o.st.ts, col), c)
 	} else if !inWin {
 		fail(sum, proto+"_arrival_time_wrong", fmt.Sprintf("%s: event %s carries no time, stored timestamp %d is outside the arrival window %d..%d", proto, cid, o.st.ts, o.win.lo, o.win.hi), c)
 	}
@@ -716,11 +737,23 @@ func checkStored(sum *vhlib.Summary, proto string, cid string, ex expect, o logO
 		want := ex.cols[k]
 		got, ok := o.st.fields[k]
 		if !ok {
-			fail(sum, proto+"_field_lost", fmt.Sprintf("%s: event %s: column %q (%v) is missing; stored columns %v", proto, cid, k, want, o.st.fields), c)
+			cl := proto + "_field_lost"
+			if ex.lostClass != nil {
+				if c2 := ex.lostClass(k); c2 != "" {
+					cl = c2
+				}
+			}
+			fail(sum, cl, fmt.Sprintf("%s: event %s: column %q (%v) is missing; stored columns %v", proto, cid, k, want, o.st.fields), c)
 			continue
 		}
 		if !got.eq(want) {
 			cl := proto + "_field_altered"
+			if ex.alteredClass != nil {
+				if c2 := ex.alteredClass(k, got); c2 != "" {
+					fail(sum, c2, fmt.Sprintf("%s: event %s: column %q must be %v, stored as %v", proto, cid, k, want, got), c)
+					continue
+				}
+			}
 			// an integer literal that went through a float64 (decoded into interface{} without UseNumber): the
 			// nearest float64, or the integer its shortest decimal text denotes
 			if want.Kind == "i" && (want.I >= two53 || want.I <= -two53) {
@@ -835,6 +868,9 @@ func esDoc(e levent) string {
 	if len(e.Attrs) > 0 {
 		doc += "," + jsonMembers(e.Attrs)
 	}
+	if len(e.Tree) > 0 {
+		doc += "," + membersJSON(e.Tree)
+	}
 	return doc + "}"
 }
 
@@ -843,6 +879,9 @@ func esExpect(sum *vhlib.Summary, proto string, e levent) expect {
 	ex := expect{cols: map[string]sv{"cid": {Kind: "s", S: e.Cid}, "message": {Kind: "s", S: e.Msg}}, exact: true}
 	for _, a := range e.Attrs {
 		ex.cols[a.K] = a.V.expected()
+	}
+	if e.Stream == "K" {
+		expectTree(&ex, proto, "", 0, e.Tree)
 	}
 	if t, ok := e.Time.supported(); ok {
 		ex.carried = t
@@ -901,6 +940,7 @@ func runES(sum *vhlib.Summary, evs []levent, cases *[]string, ix string) {
 		}
 		ex := esExpect(sum, "es", e)
 		countLits(sum, "es", e)
+		countTree(sum, "es", e)
 		sum.Count("es/time_" + e.Time.Unit + "_" + e.Time.Form)
 		sum.Eval("es/"+e.Cid, true)
 		checkStored(sum, "es", e.Cid, ex, o, leakClass("es", earlier, ""), map[string]interface{}{"protocol": "es_bulk", "event": e})
@@ -908,7 +948,11 @@ func runES(sum *vhlib.Summary, evs []levent, cases *[]string, ix string) {
 			earlier[a.K] = true
 		}
 		attrs := append([]kv{{"cid", sv{Kind: "s", S: e.Cid}}, {"message", sv{Kind: "s", S: e.Msg}}}, e.Attrs...)
-		*cases = append(*cases, fmt.Sprintf("(LEs %s %s, %s, %s)", e.Time.coqWire(), coqEvent(attrs), coqS(ix), o.coq()))
+		if len(e.Tree) > 0 { // a tree document: the model's flattener itself
+			*cases = append(*cases, fmt.Sprintf("(LEsTree %s %s %s, %s, %s)", e.Time.coqWire(), coqEvent(attrs), coqTree(e.Tree), coqS(ix), o.coq()))
+		} else {
+			*cases = append(*cases, fmt.Sprintf("(LEs %s %s, %s, %s)", e.Time.coqWire(), coqEvent(attrs), coqS(ix), o.coq()))
+		}
 		if i%40 == 0 {
 			sum.Sample(map[string]interface{}{"protocol": "es_bulk", "event": e, "stored_ts": o.st.ts, "stored_columns": len(o.st.fields)})
 		}
@@ -1222,6 +1266,7 @@ func runESDoc(sum *vhlib.Summary, evs []levent, cases *[]string, ix string) {
 			}
 		}
 		countLits(sum, "es_doc", e)
+		countTree(sum, "es_doc", e)
 		sum.Count("es_doc/route " + v.Route)
 		sum.Count("es_doc/stream_" + e.Stream)
 		sum.Count("es_doc/time_" + e.Time.Unit + "_" + e.Time.Form)
@@ -1230,7 +1275,7 @@ func runESDoc(sum *vhlib.Summary, evs []levent, cases *[]string, ix string) {
 		// the same event through the other ES protocol: stored identically (content and time)
 		if b, ok := bulkStored[e.Cid]; ok && o.found > 0 {
 			var diff []string
-			for _, a := range append([]kv{{"message", sv{}}}, e.Attrs...) {
+			for _, a := range append(append([]kv{{"message", sv{}}}, e.Attrs...), flatTree("", e.Tree)...) {
 				bv, bok := b.fields[a.K]
 				dv, dok := o.st.fields[a.K]
 				if bok != dok || bok && !bv.eq(dv) {
@@ -1246,7 +1291,7 @@ func runESDoc(sum *vhlib.Summary, evs []levent, cases *[]string, ix string) {
 			sum.Count("es_doc/compared_with_es_bulk")
 		}
 		attrs := append([]kv{{"cid", sv{Kind: "s", S: e.Cid}}, {"message", sv{Kind: "s", S: e.Msg}}}, e.Attrs...)
-		*cases = append(*cases, fmt.Sprintf("(LEsDoc %s %s %s, %s, %s)", v.coq(gen), e.Time.coqWire(), coqEvent(attrs), coqS(ix), o.coq()))
+		*cases = append(*cases, fmt.Sprintf("(LEsDoc %s %s %s, %s, %s)", v.coq(gen), e.Time.coqWire(), coqAttrsTree(attrs, e.Tree), coqS(ix), o.coq()))
 		if i%40 == 5 {
 			sum.Sample(map[string]interface{}{"protocol": "es_doc", "request": v, "event": e, "stored_ts": o.st.ts, "stored_columns": len(o.st.fields)})
 		}
@@ -1414,7 +1459,14 @@ func runHEC(sum *vhlib.Summary, evs []levent, cases *[]string, ix string) {
 				env += `,"` + name + `":` + rk.V.json()
 			}
 			ev := append([]kv{{"cid", sv{Kind: "s", S: e.Cid}}, {"message", sv{Kind: "s", S: e.Msg}}}, e.Attrs...)
-			env += `,"event":` + jsonObj(ev) + "}"
+			if len(e.Fields) > 0 {
+				env += `,"fields":` + jsonObj(e.Fields)
+			}
+			if len(e.Tree) > 0 {
+				env += `,"event":{` + jsonMembers(ev) + "," + membersJSON(e.Tree) + "}}"
+			} else {
+				env += `,"event":` + jsonObj(ev) + "}"
+			}
 			sb.WriteString(env)
 		}
 		lo := nowMs() - 1
@@ -1446,6 +1498,14 @@ func runHEC(sum *vhlib.Summary, evs []levent, cases *[]string, ix string) {
 		for _, a := range e.Attrs {
 			ex.cols["event."+a.K] = a.V.expected()
 		}
+		if e.Stream == "K" {
+			expectTree(&ex, "hec", "event.", 1, e.Tree)
+		}
+		var rootFs []kv
+		for _, a := range e.Fields {
+			ex.cols["fields."+a.K] = a.V.expected()
+			rootFs = append(rootFs, kv{"fields." + a.K, a.V})
+		}
 		var metaFs []kv
 		for j, rk := range e.Res {
 			name := []string{"host", "source", "sourcetype"}[j%3]
@@ -1458,7 +1518,7 @@ func runHEC(sum *vhlib.Summary, evs []levent, cases *[]string, ix string) {
 			ex.cols["time"] = sv{Kind: "i", I: int64(e.TimeNs / 1000000000)}
 			tm = "(Some (SInt " + coqN(e.TimeNs/1000000000) + "%Z))"
 		}
-		root := "[]"
+		root := coqEvent(rootFs)
 		if e.Stream == "N" {
 			if t, ok := e.Time.supported(); ok {
 				ex.carried, ex.timeKnown = t, ""
@@ -1471,13 +1531,14 @@ func runHEC(sum *vhlib.Summary, evs []levent, cases *[]string, ix string) {
 		sum.Eval("hec/"+e.Cid, true)
 		sum.Count("hec/stream_" + e.Stream)
 		countLits(sum, "hec", e)
+		countTree(sum, "hec", e)
 		checkStored(sum, "hec", e.Cid, ex, o, leakClass("hec", earlier, ""), map[string]interface{}{"protocol": "splunk_hec", "event": e})
 		for k := range ex.cols {
 			earlier[k] = true
 		}
 		ev := append([]kv{{"cid", sv{Kind: "s", S: e.Cid}}, {"message", sv{Kind: "s", S: e.Msg}}}, e.Attrs...)
 		*cases = append(*cases, fmt.Sprintf("(LHec {| h_time := %s; h_index := %s; h_meta := %s; h_root := %s; h_event := HObj %s |}, %s, %s)",
-			tm, coqS(ix), coqEvent(metaFs), root, coqEvent(ev), coqS(ix), o.coq()))
+			tm, coqS(ix), coqEvent(metaFs), root, coqAttrsTree(ev, e.Tree), coqS(ix), o.coq()))
 	}
 }
 
@@ -1636,6 +1697,7 @@ func (pr planRes) pb() *resourcepb.Resource {
 const otlpDefaultIndex = "otel-logs"
 const otlpIdKindsIndex = "otel-logs-idkinds"
 const otlpLitIndex = "otel-logs-lit"
+const otlpKeyIndex = "otel-logs-key"
 
 // text of an attribute value as an identifier (what a reader of the attribute would print)
 func idText(v sv) string {
@@ -1812,6 +1874,18 @@ func runOTLPLogs(sum *vhlib.Summary, r *vhlib.Rng, evs []levent, cases *[]string
 				pr := &plans[pi].Res[ri]
 				pr.Nil = false
 				pr.Attrs = append([]kv{{"siglensIndexName", sv{Kind: "s", S: ix}}}, pr.Attrs...)
+				if ix == otlpKeyIndex {
+					// stream K: resource and scope attributes whose names are reserved elsewhere on the path
+					pr.Attrs = append(pr.Attrs, kv{"timestamp", sv{Kind: "s", S: fmt.Sprintf("res-ts-%d-%d", pi, ri)}}, kv{"body", sv{Kind: "s", S: "res-body"}})
+					if ri%2 == 0 {
+						pr.Attrs = append(pr.Attrs, kv{"attributes", sv{Kind: "i", I: int64(1400000000 + pi)}})
+					}
+					for si := range pr.Scopes {
+						if ps := &pr.Scopes[si]; !ps.Nil {
+							ps.Attrs = append(ps.Attrs, kv{"timestamp", sv{Kind: "i", I: int64(1400000100 + si)}}, kv{"name", sv{Kind: "s", S: "scope-attr-name"}})
+						}
+					}
+				}
 			}
 		}
 	}
@@ -1826,7 +1900,7 @@ func runOTLPLogs(sum *vhlib.Summary, r *vhlib.Rng, evs []levent, cases *[]string
 					e := evs[i]
 					sl.LogRecords = append(sl.LogRecords, &logpb.LogRecord{TimeUnixNano: e.TimeNs, SeverityNumber: 9, SeverityText: "INFO",
 						Body:       otlpAny(sv{Kind: "s", S: e.Msg}),
-						Attributes: otlpKVs(append([]kv{{"cid", sv{Kind: "s", S: e.Cid}}}, e.Attrs...)), Flags: 1, TraceId: e.Trace, SpanId: e.Span})
+						Attributes: append(otlpKVs(append([]kv{{"cid", sv{Kind: "s", S: e.Cid}}}, e.Attrs...)), otlpTreeKVs(e.Tree)...), Flags: 1, TraceId: e.Trace, SpanId: e.Span})
 				}
 				rl.ScopeLogs = append(rl.ScopeLogs, sl)
 			}
@@ -1880,6 +1954,9 @@ func runOTLPLogs(sum *vhlib.Summary, r *vhlib.Rng, evs []levent, cases *[]string
 					for _, a := range e.Attrs {
 						ex.cols["attributes."+a.K] = a.V
 					}
+					if e.Stream == "K" {
+						expectTree(&ex, "otlp_log", "attributes.", 1, e.Tree)
+					}
 					for _, a := range pr.Attrs {
 						ex.cols["resource.attributes."+a.K] = a.V
 					}
@@ -1895,6 +1972,7 @@ func runOTLPLogs(sum *vhlib.Summary, r *vhlib.Rng, evs []levent, cases *[]string
 					sum.Eval("otlp_log/"+e.Cid, true)
 					sum.Count("otlp_log/stream_" + e.Stream)
 					countLits(sum, "otlp_log", e)
+					countTree(sum, "otlp_log", e)
 					sum.Count("otlp_log/request_" + pl.Shape)
 					c := map[string]interface{}{"protocol": "otlp_logs", "event": e, "request": pl}
 					// scope name / version of an earlier scope showing up on a record of a bare or absent scope
@@ -1935,7 +2013,7 @@ func runOTLPLogs(sum *vhlib.Summary, r *vhlib.Rng, evs []levent, cases *[]string
 					}
 					earlier["scope.name="+ps.Name] = true
 					attrs := append([]kv{{"cid", sv{Kind: "s", S: e.Cid}}}, e.Attrs...)
-					recTerms = append(recTerms, fmt.Sprintf("mk_rec %d 9%%Z (s2b \"INFO\") (SStr %s) %s 1 %s %s", e.TimeNs, coqS(e.Msg), coqEvent(attrs),
+					recTerms = append(recTerms, fmt.Sprintf("mk_rec %d 9%%Z (s2b \"INFO\") (SStr %s) %s 1 %s %s", e.TimeNs, coqS(e.Msg), coqAttrsTree(attrs, e.Tree),
 						coqS(hex.EncodeToString(e.Trace)), coqS(hex.EncodeToString(e.Span))))
 					obsTerms = append(obsTerms, o.coq())
 				}
@@ -1971,7 +2049,7 @@ func runSpans(sum *vhlib.Summary, r *vhlib.Rng, evs []levent, cases *[]string) {
 					e := evs[i]
 					ss.Spans = append(ss.Spans, &tracepb.Span{TraceId: e.Trace, SpanId: e.Span, Name: e.Msg, Kind: tracepb.Span_SpanKind(1 + i%5),
 						StartTimeUnixNano: e.TimeNs, EndTimeUnixNano: e.TimeNs + 1500000, Status: &tracepb.Status{Code: tracepb.Status_StatusCode(i % 3)},
-						Attributes: otlpKVs(append([]kv{{"cid", sv{Kind: "s", S: e.Cid}}}, e.Attrs...))})
+						Attributes: append(otlpKVs(append([]kv{{"cid", sv{Kind: "s", S: e.Cid}}}, e.Attrs...)), otlpTreeKVs(e.Tree)...)})
 				}
 				rs.ScopeSpans = append(rs.ScopeSpans, ss)
 			}
@@ -2025,12 +2103,37 @@ func runSpans(sum *vhlib.Summary, r *vhlib.Rng, evs []levent, cases *[]string) {
 						"events": {Kind: "s", S: "null"}, "links": {Kind: "s", S: "[]"},
 						"kind": {Kind: "s", S: tracepb.Span_SpanKind(1 + i%5).String()}, "status": {Kind: "s", S: tracepb.Status_StatusCode(i % 3).String()}},
 						exact: true, timeKnown: "otlp_span_time_replaced", carried: e.TimeNs / 1000000}
+					collide := map[string]sv{}
 					for _, a := range e.Attrs {
+						if _, fixed := ex.cols[a.K]; fixed && e.Stream == "R" {
+							collide[a.K] = a.V // the span's own field of that name must stay what it is
+							continue
+						}
+						if a.K == "timestamp" && e.Stream == "R" {
+							if t, ok := nestedInstant(a.V); ok {
+								ex.nestedTimes = map[uint64]string{t: "timestamp (span attribute)"}
+								ex.nestedClass = spanCollisionClass
+							}
+							continue
+						}
 						ex.cols[a.K] = a.V
+					}
+					if e.Stream == "R" {
+						sum.Count("otlp_span/attribute_named_like_record_field")
+						ex.alteredClass = func(k string, got sv) string {
+							if v, ok := collide[k]; ok && got.eq(v) {
+								return spanCollisionClass
+							}
+							return ""
+						}
+					}
+					if e.Stream == "K" {
+						expectTree(&ex, "otlp_span", "", 0, e.Tree)
 					}
 					sum.Eval("otlp_span/"+e.Cid, true)
 					sum.Count("otlp_span/events")
 					countLits(sum, "otlp_span", e)
+					countTree(sum, "otlp_span", e)
 					sum.Count("otlp_span/request_" + pl.Shape)
 					c := map[string]interface{}{"protocol": "otlp_traces", "event": e, "own_service": service, "request": pl}
 					if got, ok := o.st.fields["service"]; ok && o.found > 0 && got.S != service {
@@ -2048,7 +2151,7 @@ func runSpans(sum *vhlib.Summary, r *vhlib.Rng, evs []levent, cases *[]string) {
 					}
 					attrs := append([]kv{{"cid", sv{Kind: "s", S: e.Cid}}}, e.Attrs...)
 					spanTerms = append(spanTerms, fmt.Sprintf("mk_span %s %s [] %s %d %d %d %d %s", coqS(hex.EncodeToString(e.Trace)), coqS(hex.EncodeToString(e.Span)),
-						coqS(e.Msg), 1+i%5, e.TimeNs, e.TimeNs+1500000, i%3, coqEvent(attrs)))
+						coqS(e.Msg), 1+i%5, e.TimeNs, e.TimeNs+1500000, i%3, coqAttrsTree(attrs, e.Tree)))
 					obsTerms = append(obsTerms, o.coq())
 				}
 			}
@@ -2068,6 +2171,8 @@ type lokiLine struct {
 	Ts   uint64 `json:"ts"`
 	Form string `json:"form"` // ns | s
 	Meta []kv   `json:"meta"`
+	// stream K: structured metadata whose values are objects / arrays (the handler takes any JSON value)
+	MetaTree jobj `json:"meta_tree,omitempty"`
 }
 type lokiStream struct {
 	Kind   string     `json:"kind"` // A: metadata on the last line at most; B: metadata anywhere
@@ -2124,7 +2229,11 @@ func runLoki(sum *vhlib.Summary, streams []lokiStream, cases *[]string) {
 			for _, l := range s.Lines {
 				lb, _ := json.Marshal(l.Cid)
 				v := `["` + coqN(l.Ts) + `",` + string(lb)
-				if len(l.Meta) > 0 {
+				if len(l.Meta) > 0 && len(l.MetaTree) > 0 {
+					v += ",{" + jsonMembers(l.Meta) + "," + membersJSON(l.MetaTree) + "}"
+				} else if len(l.MetaTree) > 0 {
+					v += ",{" + membersJSON(l.MetaTree) + "}"
+				} else if len(l.Meta) > 0 {
 					v += "," + jsonObj(l.Meta)
 				}
 				vals = append(vals, v+"]")
@@ -2162,6 +2271,13 @@ func runLoki(sum *vhlib.Summary, streams []lokiStream, cases *[]string) {
 			for _, a := range l.Meta {
 				ex.cols[a.K] = a.V
 			}
+			if s.Kind == "R" {
+				lokiCollisions(sum, s, l, &ex, &o, byLine, wins[si])
+			}
+			if s.Kind == "K" {
+				expectTree(&ex, "loki", "", 0, l.MetaTree)
+				countTree(sum, "loki", levent{Stream: "K", Tree: l.MetaTree, Attrs: append(append([]kv{}, s.Labels...), l.Meta...)})
+			}
 			if l.Form == "ns" {
 				ex.carried = l.Ts / 1000000
 			} else {
@@ -2182,7 +2298,10 @@ func runLoki(sum *vhlib.Summary, streams []lokiStream, cases *[]string) {
 			for _, a := range l.Meta {
 				earlier[a.K] = true
 			}
-			lineTerms = append(lineTerms, fmt.Sprintf("{| ll_ts := %s; ll_line := %s; ll_meta := %s |}", coqS(coqN(l.Ts)), coqS(l.Cid), coqEvent(l.Meta)))
+			for _, a := range flatTree("", l.MetaTree) {
+				earlier[a.K] = true
+			}
+			lineTerms = append(lineTerms, fmt.Sprintf("{| ll_ts := %s; ll_line := %s; ll_meta := %s |}", coqS(coqN(l.Ts)), coqS(l.Cid), coqAttrsTree(l.Meta, l.MetaTree)))
 			obsTerms = append(obsTerms, o.coq())
 		}
 		*cases = append(*cases, fmt.Sprintf("(%s, %s, %s)", coqEvent(s.Labels), vhlib.CoqList(lineTerms), vhlib.CoqList(obsTerms)))
@@ -2230,7 +2349,7 @@ func unitPool(r *vhlib.Rng, n int) []int64 {
 	return out
 }
 
-const caseImports = "From SigM Require Import Base Proto ProtoCheck.\nFrom Coq Require Import String.\n"
+const caseImports = "From SigM Require Import Base Proto ProtoTree ProtoCheck.\nFrom Coq Require Import String.\n"
 
 func runUnits(cfg vhlib.Config, sum *vhlib.Summary, r *vhlib.Rng) {
 	n := 2400
@@ -2823,7 +2942,7 @@ func main() {
 	sum := vhlib.NewSummary("one case = (logical event or datapoint, protocol) pushed through the real handler, flushed and read back by a match-all search / the PromQL query path, " +
 		"or one integer given to every real reader of a time value (boundary pool around each unit threshold +-2, 0, negatives, 10/13/16/19 digit values, random 1-19 digit values); " +
 		"events: time in one of {none, s, ms, ns} x {number, string}, 1-5 attributes (strings, ints incl. +-(2^53-1) and beyond, non-integral floats, bools), resource attributes, ids; " +
-		"stream A avoids the inputs of the known findings, stream B concentrates on them; stream I (OTLP logs): each of trace id / span id carried as {own field, attribute only, both with different values, both the same, neither}, all combinations, attribute values as hex strings and (own index) as integers / booleans; stream L (ES bulk, ES single-document, HEC, OTLP logs, OTLP traces as far as expressible): number literals under keys of their own: integers beyond 2^53 inside int64 (ids, nanosecond epochs, also inside a nested object), in [2^63, 2^64), beyond 64 bits, non-integral decimals as shortest digits in fraction / exponent spelling and as 40-place decimals, large / small exponents and denormals, strings with escaped characters; ES single-document requests: every event of the ES bulk streams and of stream L again, one request each, routes POST _doc, PUT _doc/{id}, PUT _create/{id}, POST _update/{id}, PUT {docType}/{id}, POST _doc/{escaped id}?refresh=true, POST _doc/ with an empty id, in turn; distinct by (protocol, case id) resp. integer value; all are non-trivial except the integer 0")
+		"stream A avoids the inputs of the known findings, stream B concentrates on them; stream I (OTLP logs): each of trace id / span id carried as {own field, attribute only, both with different values, both the same, neither}, all combinations, attribute values as hex strings and (own index) as integers / booleans; stream L (ES bulk, ES single-document, HEC, OTLP logs, OTLP traces as far as expressible): number literals under keys of their own: integers beyond 2^53 inside int64 (ids, nanosecond epochs, also inside a nested object), in [2^63, 2^64), beyond 64 bits, non-integral decimals as shortest digits in fraction / exponent spelling and as 40-place decimals, large / small exponents and denormals, strings with escaped characters; ES single-document requests: every event of the ES bulk streams and of stream L again, one request each, routes POST _doc, PUT _doc/{id}, PUT _create/{id}, POST _update/{id}, PUT {docType}/{id}, POST _doc/{escaped id}?refresh=true, POST _doc/ with an empty id, in turn; stream K (ES bulk, ES single-document, HEC event + HEC fields member, Loki structured metadata + labels, OTLP log attributes / resource attributes / scope attributes / kvlist body, OTLP span attributes): events that are TREES (objects, arrays of objects / scalars / arrays, depth up to 5) whose member names are taken from the names the ingest path treats specially (timestamp, _index, _id, _type, time, event, fields, host, source, sourcetype, index, streams, stream, values, line, resource, scope, attributes, body, severity_text, trace_id, span_id, time_unix_nano, name, service, kind, status, start_time, startTimeMillis, message), 9 designed shapes then random ones, every column one value kind, nested timestamp values that denote other instants than the event time, plus such names as plain root fields where the record layout leaves them free; stream R (known findings): span attributes / Loki labels / Loki metadata called like a root field of the record itself; distinct by (protocol, case id) resp. integer value; all are non-trivial except the integer 0")
 	r := vhlib.NewRng(cfg.Seed)
 	dir := filepath.Join(cfg.Out, "data")
 	_ = os.MkdirAll(dir, 0o755)
@@ -2895,6 +3014,29 @@ func main() {
 	runSpans(sum, rL.Fork(), litFor("otlp", lEvs), &litTraceReqCases)
 	writeSharded(cfg, sum, "cases_otlp_traces_lit", "list (list res_spans * list lobs)", "check_trace_reqs (s2b \"traces\") cases", litTraceReqCases, 12)
 
+	// stream K (own generator stream): names the ingest path treats specially, as ordinary field names below the
+	// root and at the root, through every log protocol
+	nK := 40
+	if cfg.Thorough() {
+		nK = 400
+	}
+	rK := vhlib.NewRng(cfg.Seed ^ 0x4b16c16b16c16b16)
+	kEvs := keyEvents(rK.Fork(), nK)
+	var keyCases, keyDocCases, keyLogReqCases, keyTraceReqCases, colTraceReqCases []string
+	runES(sum, kEvs, &keyCases, "c16key")
+	runHEC(sum, kEvs, &keyCases, "c16heckey")
+	runOTLPLogBodies(sum, kEvs, &keyCases)
+	writeSharded(cfg, sum, "cases_logs_key", "list (lcase * list N * lobs)", "check_logs cases", keyCases, 60)
+	runESDoc(sum, kEvs, &keyDocCases, "c16keydoc")
+	writeSharded(cfg, sum, "cases_es_doc_key", "list (lcase * list N * lobs)", "check_logs cases", keyDocCases, 80)
+	runOTLPLogs(sum, rK.Fork(), kEvs, &keyLogReqCases, otlpKeyIndex)
+	writeSharded(cfg, sum, "cases_otlp_logs_key", "list (list res_logs * list lobs)", "check_logs_reqs (s2b \""+otlpKeyIndex+"\") cases", keyLogReqCases, 12)
+	runSpans(sum, rK.Fork(), kEvs, &keyTraceReqCases)
+	writeSharded(cfg, sum, "cases_otlp_traces_key", "list (list res_spans * list lobs)", "check_trace_reqs (s2b \"traces\") cases", keyTraceReqCases, 12)
+	// stream R (known findings, kept apart): names that collide with the record's OWN root fields
+	runSpans(sum, rK.Fork(), spanCollisionEvents(nK/4), &colTraceReqCases)
+	writeSharded(cfg, sum, "cases_otlp_traces_collide", "list (list res_spans * list lobs)", "check_trace_reqs (s2b \"traces\") cases", colTraceReqCases, 12)
+
 	var streams []lokiStream
 	rl, rlb := r.Fork(), r.Fork()
 	nsA, nsB := 30, 12
@@ -2906,6 +3048,17 @@ func main() {
 	}
 	for i := 0; i < nsB; i++ {
 		streams = append(streams, genLokiStream(rlb, i, "B"))
+	}
+	nsK := 12
+	if cfg.Thorough() {
+		nsK = 120
+	}
+	rlk := rK.Fork()
+	for i := 0; i < nsK; i++ {
+		streams = append(streams, genLokiKeyStream(rlk, i))
+	}
+	for i := 0; i < nsK/2; i++ {
+		streams = append(streams, lokiCollisionStream(i))
 	}
 	var lokiCases []string
 	runLoki(sum, streams, &lokiCases)
